@@ -216,6 +216,125 @@ async def actor_scenario(events, yields):
     return failures[0] if failures else None
 
 
+def expected_reading(metric_name, data):
+    """What a metric's stream must carry, read off the metric's NAME (independent of the extraction tables):
+    X_PHASE_n -> x_per_phase[n - 1]; POWER_*_BOUND -> power_*_bound; everything else -> the attribute of that name."""
+    import re
+    m = re.fullmatch(r"(.+)_PHASE_([123])", metric_name)
+    if m:
+        return getattr(data, m.group(1).lower() + "_per_phase")[int(m.group(2)) - 1]
+    return getattr(data, metric_name.lower())
+
+
+async def category_tables():
+    """Every metric of every component category (meter, battery, inverter, EV charger), requested one after the other
+    through the real MicrogridApiSource with messages flowing in between: each stream carries the reading its metric
+    NAMES, for messages whose fields are all different; nothing raises, no stream stops."""
+    from frequenz.channels import Broadcast
+    from frequenz.client.microgrid import (BatteryComponentState, BatteryData, BatteryRelayState, Component, ComponentCategory,
+                                           ComponentMetricId, EVChargerCableState, EVChargerComponentState, EVChargerData,
+                                           InverterComponentState, InverterData, MeterData)
+    from frequenz.quantities import Quantity
+    from frequenz.sdk._internal._channels import ChannelRegistry
+    from frequenz.sdk.microgrid import connection_manager
+    from frequenz.sdk.microgrid._data_sourcing._component_metric_request import ComponentMetricRequest
+    from frequenz.sdk.microgrid._data_sourcing.microgrid_api_source import MicrogridApiSource
+    from frequenz.sdk.timeseries import Sample
+
+    def three(base):
+        return (base + 1.0, base + 2.0, base + 3.0)
+
+    def make(cat, cid, k):
+        ts = T0 + timedelta(seconds=k)
+        common = dict(component_id=cid, timestamp=ts)
+        if cat == "meter":
+            return MeterData(active_power=10.0 + k, active_power_per_phase=three(20.0 + k), reactive_power=30.0 + k,
+                             reactive_power_per_phase=three(40.0 + k), current_per_phase=three(50.0 + k),
+                             voltage_per_phase=three(60.0 + k), frequency=70.0 + k, **common)
+        if cat == "battery":
+            return BatteryData(soc=11.0 + k, soc_lower_bound=12.0 + k, soc_upper_bound=13.0 + k, capacity=14.0 + k,
+                               power_inclusion_lower_bound=-15.0 - k, power_exclusion_lower_bound=-16.0 - k,
+                               power_exclusion_upper_bound=17.0 + k, power_inclusion_upper_bound=18.0 + k, temperature=19.0 + k,
+                               relay_state=BatteryRelayState.CLOSED, component_state=BatteryComponentState.IDLE, errors=[], **common)
+        if cat == "inverter":
+            return InverterData(active_power=10.0 + k, active_power_per_phase=three(20.0 + k), reactive_power=30.0 + k,
+                                reactive_power_per_phase=three(40.0 + k), current_per_phase=three(50.0 + k),
+                                voltage_per_phase=three(60.0 + k), frequency=70.0 + k,
+                                active_power_inclusion_lower_bound=-81.0 - k, active_power_exclusion_lower_bound=-82.0 - k,
+                                active_power_exclusion_upper_bound=83.0 + k, active_power_inclusion_upper_bound=84.0 + k,
+                                component_state=InverterComponentState.IDLE, errors=[], **common)
+        return EVChargerData(active_power=10.0 + k, active_power_per_phase=three(20.0 + k), reactive_power=30.0 + k,
+                             reactive_power_per_phase=three(40.0 + k), current_per_phase=three(50.0 + k),
+                             voltage_per_phase=three(60.0 + k), frequency=70.0 + k, active_power_inclusion_lower_bound=0.0,
+                             active_power_exclusion_lower_bound=0.0, active_power_exclusion_upper_bound=0.0,
+                             active_power_inclusion_upper_bound=0.0, cable_state=EVChargerCableState.EV_PLUGGED,
+                             component_state=EVChargerComponentState.READY, **common)
+
+    metrics = {
+        "meter": ["ACTIVE_POWER", "ACTIVE_POWER_PHASE_1", "ACTIVE_POWER_PHASE_2", "ACTIVE_POWER_PHASE_3", "CURRENT_PHASE_1",
+                  "CURRENT_PHASE_2", "CURRENT_PHASE_3", "VOLTAGE_PHASE_1", "VOLTAGE_PHASE_2", "VOLTAGE_PHASE_3", "FREQUENCY",
+                  "REACTIVE_POWER", "REACTIVE_POWER_PHASE_1", "REACTIVE_POWER_PHASE_2", "REACTIVE_POWER_PHASE_3"],
+        "battery": ["SOC", "SOC_LOWER_BOUND", "SOC_UPPER_BOUND", "CAPACITY", "POWER_INCLUSION_LOWER_BOUND",
+                    "POWER_EXCLUSION_LOWER_BOUND", "POWER_EXCLUSION_UPPER_BOUND", "POWER_INCLUSION_UPPER_BOUND", "TEMPERATURE"],
+    }
+    metrics["ev_charger"] = list(metrics["meter"])
+    metrics["inverter"] = metrics["meter"] + ["ACTIVE_POWER_INCLUSION_LOWER_BOUND", "ACTIVE_POWER_EXCLUSION_LOWER_BOUND",
+                                              "ACTIVE_POWER_EXCLUSION_UPPER_BOUND", "ACTIVE_POWER_INCLUSION_UPPER_BOUND"]
+    cats = {"meter": (4, ComponentCategory.METER), "battery": (9, ComponentCategory.BATTERY),
+            "inverter": (8, ComponentCategory.INVERTER), "ev_charger": (12, ComponentCategory.EV_CHARGER)}
+    for cat, (cid, category) in cats.items():
+        chan = Broadcast(name=f"api-{cat}")
+        rx_api = chan.new_receiver(limit=200)
+        tx = chan.new_sender()
+
+        class Api:
+            async def components(self):
+                return [Component(cid, category)]
+
+            async def meter_data(self, c, maxsize=50):
+                return rx_api
+            battery_data = inverter_data = ev_charger_data = meter_data
+
+        class Conn:
+            api_client = Api()
+
+        registry = ChannelRegistry(name=f"tables-{cat}")
+        with mock.patch.object(connection_manager, "get", lambda: Conn()):   # pylint: disable=cell-var-from-loop
+            src = MicrogridApiSource(registry)
+            receivers, sent = {}, []
+            order = metrics[cat]
+            if cat == "inverter":       # a bound metric among the very first subscriptions, and one added later
+                order = [order[-1]] + order[:-1]
+            for k, name in enumerate(order):
+                req = ComponentMetricRequest("tables", cid, ComponentMetricId[name], None)
+                receivers[name] = (registry.get_or_create(Sample[Quantity], req.get_channel_name()).new_receiver(limit=100), k)
+                try:
+                    await src.add_metric(req)
+                except Exception as e:  # pylint: disable=broad-except
+                    return f"{cat}: subscribing {name} raised {type(e).__name__}: {e}"
+                for _ in range(15):
+                    await asyncio.sleep(0)
+                datum = make(cat, cid, k)
+                sent.append(datum)
+                await tx.send(datum)
+                for _ in range(25):
+                    await asyncio.sleep(0)
+            for _ in range(40):
+                await asyncio.sleep(0)
+            for name, (rx, first) in receivers.items():
+                req = ComponentMetricRequest("tables", cid, ComponentMetricId[name], None)
+                got = await _drain(registry, req.get_channel_name(), rx)
+                have = [(int((smp.timestamp - T0).total_seconds()), None if smp.value is None else smp.value.base_value) for smp in got]
+                want = [(k, expected_reading(name, sent[k])) for k in range(first, len(sent))]
+                if have != want:
+                    return (f"{cat} {cid}, metric {name}: the stream carried {have}; the messages sent after its subscription "
+                            f"read {want} for that metric (timestamp step, value)")
+            for t in list(src.comp_data_tasks.values()):
+                t.cancel()
+            await asyncio.sleep(0)
+    return None
+
+
 def run(req):
     tier = req.get("tier", "quick")
     seed = int(req.get("seed", 0))
@@ -229,6 +348,15 @@ def run(req):
             ("sub", "ns2", "ACTIVE_POWER", METER), ("sub", "ns1", "REACTIVE_POWER", METER),
             ("sub", "ns1", "ACTIVE_POWER", 999)]                                              # unknown component
     failure = None
+    # every metric of every component category carries the reading its name says
+    evaluations += 1
+    distinct.add(("category tables",))
+    try:
+        f = asyncio.run(category_tables())
+    except Exception as e:  # pylint: disable=broad-except
+        f = f"category-table scenario raised {type(e).__name__}: {e}"
+    if f:
+        failure = (f, [("every metric of every category, subscribed one after the other with a message after each",)], 15)
     # all placements of up to 3 subscriptions among up to 3 messages, with 0 / 1 / 3 / 20 loop iterations in between
     plans = []
     for n_subs in (1, 2, 3):
@@ -246,7 +374,7 @@ def run(req):
                             mi += 1
                     plans.append(evs)
     rng.shuffle(plans)
-    for evs in plans:
+    for evs in ([] if failure else plans):
         for yields in (0, 1, 3, 20):
             if time.time() - t0 > budget:
                 break
@@ -285,7 +413,7 @@ def run(req):
                 break
     out = {"status": "failed" if failure else "ok", "evaluations": evaluations, "distinct": len(distinct), "known": {},
            "samples": samples, "wall_s": round(time.time() - t0, 1),
-           "rule": "all placements of 1-3 subscriptions (incl. a duplicate request, a second namespace, a second metric, an "
+           "rule": "every metric of the four component categories subscribed one after the other (each stream carries the reading its name says); all placements of 1-3 subscriptions (incl. a duplicate request, a second namespace, a second metric, an "
                    "unknown component id) among 1-3 data messages, with 0/1/3/20 event-loop iterations between consecutive "
                    "events (shuffled, as many as fit the time budget); then seeded random sequences through the real DataSourcingActor with "
                    "two meters, two namespaces, two metrics; distinct = distinct (event sequence, yields) pairs"}
